@@ -358,6 +358,28 @@ func (e *wireExec) construct(i int, ts TokSpec) {
 			}
 		}
 	}
+	cloneIndependence(o, obj, "constructed")
+	if ts.Kind == "inv" && (len(ts.Inv.Args) > 0 || len(ts.Inv.Meta) > 0) {
+		// the same invocation without any argument and without metadata (the empty collections
+		// are values too): constructed, and read back from its sealed form
+		bare := ts
+		inv0 := *ts.Inv
+		inv0.Args, inv0.Meta = nil, nil
+		bare.Inv = &inv0
+		var b0 token.Token
+		if !guard(o, "constructor", func() { b0, err = buildTok(e.cast, bare) }) && err == nil && !isNilTok(b0) {
+			cloneIndependence(o, b0, "constructed without arguments")
+			bi := bare.iss()
+			if bi < 0 {
+				bi = 0
+			}
+			if sealed, _, serr := b0.ToSealed(e.cast.ent(bi).priv); serr == nil {
+				if d0, _, derr := token.FromSealed(sealed); derr == nil && !isNilTok(d0) {
+					cloneIndependence(o, d0, "decoded without arguments")
+				}
+			}
+		}
+	}
 	issIdx := ts.iss()
 	if issIdx < 0 {
 		issIdx = 0
@@ -671,6 +693,41 @@ func (e *wireExec) offer(data []byte, codec, kind string, few, meter bool) []acc
 		out = append(out, accepted{dec, tk, c})
 	}
 	return out
+}
+
+// cloneIndependence: what a caller does to a writeable clone of a token's arguments or metadata
+// (the documented way to derive new ones, and what an arguments hook works on) never shows in the
+// token: same entries afterwards, the clone holds the addition.
+func cloneIndependence(o *Outcome, tk token.Token, origin string) {
+	before := recOf(tk).Content()
+	o.Eval("C10")
+	if inv, ok := tk.(*invocation.Token); ok {
+		for round := 0; round < 2; round++ {
+			cl := inv.Arguments().WriteableClone()
+			if err := cl.Add("dsim-injected", "x"); err != nil {
+				o.Violate("C10", "token-altered-through-clone", fmt.Sprintf("a fresh writeable clone of the arguments of a %s invocation refuses a new key (round %d): %v", origin, round, err), map[string]string{"origin": origin})
+				return
+			}
+			if _, err := inv.Arguments().GetNode("dsim-injected"); err == nil {
+				o.Violate("C10", "token-altered-through-clone", fmt.Sprintf("an argument added to a writeable clone shows up in the %s invocation itself", origin), map[string]string{"origin": origin})
+				return
+			}
+		}
+	}
+	for round := 0; round < 2; round++ {
+		mc := metaOf(tk).WriteableClone()
+		if err := mc.Add("dsim-injected", "x"); err != nil {
+			o.Violate("C10", "token-altered-through-clone", fmt.Sprintf("a fresh writeable clone of the metadata of a %s token refuses a new key (round %d): %v", origin, round, err), map[string]string{"origin": origin})
+			return
+		}
+		if _, err := metaOf(tk).GetNode("dsim-injected"); err == nil {
+			o.Violate("C10", "token-altered-through-clone", fmt.Sprintf("a metadata entry added to a writeable clone shows up in the %s token itself", origin), map[string]string{"origin": origin})
+			return
+		}
+	}
+	if after := recOf(tk).Content(); after != before {
+		o.Violate("C10", "token-altered-through-clone", fmt.Sprintf("a %s token changed while writeable clones of its arguments / metadata were modified", origin), map[string]string{"origin": origin})
+	}
 }
 
 // isNilTok: nil interface, or an interface holding a nil pointer (the generic
